@@ -112,6 +112,8 @@ func (dg *DefaultGrouper) CalcPodGroupAnnotations(topOwner *unstructured.Unstruc
 	}
 
 	maps.Copy(pgAnnotations, topOwner.GetAnnotations())
+	// when the top owner is itself a pod (e.g. a spark driver), its own pod group assignment is not workload metadata
+	delete(pgAnnotations, commonconsts.PodGroupAnnotationForPod)
 
 	return pgAnnotations
 }
